@@ -118,3 +118,15 @@ pub mod verif_export {
         tr
     }
 }
+
+/// Ready bookkeeping of `RawNode` (`src/raw_node.rs`): `max_number`, `commit_since_index`,
+/// `unpersisted_hs_number`, `prev_hs`, `prev_ss` and the queue of `ReadyRecord`s as one
+/// canonical line (`rec=<k> number:last_index:last_term:snap_index:snap_term …`, `-` = None).
+pub mod rawnode {
+    use crate::{RawNode, Storage};
+
+    /// Read-only; forwards to the cfg-gated accessor next to the private fields.
+    pub fn view<T: Storage>(rn: &RawNode<T>) -> String {
+        rn.verif_view()
+    }
+}
